@@ -120,8 +120,9 @@ def r2(ctx) -> None:
         ctx.ob("C14-R2", "simulate_from_clp/clp-by-label-at-position-i", c_ok, f, s,
                f"the clps are those of global position `{pos}`, selected by the matrix' own clp labels (order independent)")
     init = [d for d in fl.defs_of("result") if d.kind == "assign"]
-    ok = any(isinstance(d.value, ast.Call) and norm(d.value.func) == "xr.DataArray" and norm(d.value.args[0]).replace(" ", "") == "np.zeros((model_axis.size,global_axis.size))"
-             and "[(model_dimension, model_axis), (global_dimension, global_axis)]" in norm(d.value) for d in init)
+    ok = any(isinstance(d.value, ast.Call) and norm(d.value.func) == "xr.DataArray" and d.value.args
+             and lib.xnorm(fl, d.value.args[0], d.stmt).replace(" ", "") == "np.zeros((model_axis.size,global_axis.size))"
+             and "[(model_dimension, model_axis), (global_dimension, global_axis)]" in lib.xnorm(fl, d.value, d.stmt) for d in init)
     ctx.ob("C14-R2", "simulate_from_clp/result-layout", ok, f, init[0].stmt if init else f.node, "the result is zeros of shape (model, global) on the given axes")
     chk = [n for n in lib.nodes(f, ast.If) if "clp_label" in norm(n.test) and isinstance(n.body[-1], ast.Raise)]
     ctx.ob("C14-R2", "simulate_from_clp/requires-clp-labels", len(chk) == 1, f, chk[0] if chk else f.node, "a clp array without clp_label coordinate is refused")
